@@ -17,8 +17,10 @@ from pyrtl.rtllib import libutils
 RULE = ('inputs of the conversion helpers: (value, bitwidth|None, signed) exhaustively for |value| <= 300 x '
         'bitwidth in None,0..10, plus +-2^k, +-2^k+-1 (k <= 130) x bitwidths k-1..k+2|None; bool x bitwidth; '
         'verilog-style strings built from (sign, width, radix letter incl. none/upper case, digits with and '
-        'without underscores, bitwidth parameter) exhaustively for width <= 6 plus boundary values to width 130 '
-        'and a list of malformed strings; Const on the same triples; val_to_signed_integer / twos_comp_repr / '
+        'without underscores, bitwidth parameter) exhaustively for width <= 6 plus boundary values to width 130, every '
+        'digit of every radix in leading/middle/trailing position (all two-digit and sampled three-digit bodies) '
+        'and a list of malformed strings; Const on the same triples, also compared directly with '
+        'infer_val_and_bitwidth; val_to_signed_integer / twos_comp_repr / '
         'rev_twos_comp_repr on all (value, width) with width <= 10 plus boundaries; all five format types '
         '(s,u,x,b,e + unknown) x widths 1..8 exhaustively over [0,2^w) plus boundaries, and back, plus malformed format '
         'strings (negative / missing / non-numeric width, empty), all against the functions REGENERATED from the source '
@@ -98,7 +100,59 @@ def sll(ss):
     return '[' + '; '.join(sl(s) for s in ss) + ']'
 
 
+class _Any(object):
+    """stands for a model answer that could not be computed (the generated Coq model does not build):
+    equal to everything, indexable, iterable -- so the implementation-vs-definition search still runs"""
+
+    def __eq__(self, other):
+        return True
+
+    def __ne__(self, other):
+        return False
+
+    def __getitem__(self, k):
+        return self
+
+    def __iter__(self):
+        return itertools.repeat(self)
+
+    def __bool__(self):
+        return False
+
+    __hash__ = None
+
+
+ANY = _Any()
+
+
+class Rep(object):
+    """an unbounded list of copies of one fallback value"""
+
+    def __init__(self, x):
+        self.x = x
+
+    def __getitem__(self, k):
+        return self.x
+
+    def __iter__(self):
+        return itertools.repeat(self.x)
+
+
+def model_eval(ctx, F, exprs, tag, fallback=ANY, imports=None, **kw):
+    """vm_compute the model; when the model cannot be built (e.g. the source became untranslatable) record the
+    broken tie once and return placeholders, so that the search against the definitions still runs"""
+    try:
+        return ctx.coq_eval(exprs, imports or IMPORTS, tag=tag, **kw)
+    except Exception as e:
+        F.model_fail('model-unavailable', (0, 0, 0),
+                     'the Coq model (Gen/Conv.v + Conv/Str.v) cannot be evaluated; searching without it',
+                     {'error': str(e)[-500:]})
+        return [fallback] * len(exprs)
+
+
 def unstr(codes):
+    if codes is ANY:
+        return ANY
     return None if codes is None else ''.join(chr(c) for c in codes)
 
 
@@ -149,10 +203,12 @@ def call(f, *a, **k):
 
 
 def tup(r):
+    if r is ANY:
+        return ANY
     return None if r is None else (int(r[0]), int(r[1]))
 
 
-def eval_fmt(ctx, F, template, tag, **kw):
+def eval_fmt(ctx, F, template, tag, fallback=None, **kw):
     """evaluate with the formatted-string functions regenerated from the source (Gen/ConvFmt.v); if that
     file does not build (untranslatable source) report the broken tie and fall back to the hand-written
     definitions of Conv/Str.v so that the search still runs.  template: exprs with {to_str}/{to_val}/{val}"""
@@ -165,7 +221,7 @@ def eval_fmt(ctx, F, template, tag, **kw):
                      {'error': str(e)[-600:]})
         hand = [t.format(to_str='h_to_str', to_val='h_to_val',
                          val='(fun d f e => res_opt (formatted_str_to_val d f e))') for t in template]
-        return ctx.coq_eval(hand, IMPORTS, tag=tag + 'hand', **kw)
+        return model_eval(ctx, F, hand, tag + 'hand', fallback=ANY if fallback is None else fallback, **kw)
 
 
 class Fails(object):
@@ -220,7 +276,7 @@ def check_int(ctx, F):
     groups = [('small', small_vs[i:i + 60], small_ws) for i in range(0, len(small_vs), 60)]
     groups += [('k=%d' % k, vs, ws) for k, vs, ws in boundary_values(kmax)]
     exprs = ['(h_int %s %s, h_const_int %s %s)' % (zl(vs), ol(ws), zl(vs), ol(ws)) for _, vs, ws in groups]
-    res = ctx.coq_eval(exprs, IMPORTS, tag='c16int', shard=24, jobs=12)
+    res = model_eval(ctx, F, exprs, 'c16int', fallback=(ANY, ANY), shard=24, jobs=12)
     pyrtl.reset_working_block()
     n_const = 0
     for (gname, vs, ws), (m_inf, m_const) in zip(groups, res):
@@ -267,6 +323,10 @@ def check_int(ctx, F):
                                     % (v, w, signed, cimpl, cspec), crep)
                     if ccls == 'PyrtlInternalError':
                         F.spec_fail('const:postcheck-fired', size, 'a Const post-check fired', crep)
+                    if (w is None or w >= 1) and cimpl != impl:
+                        F.spec_fail('const:differs-from-infer', size, 'Const(%d, bitwidth=%r, signed=%r) -> %r but '
+                                    'infer_val_and_bitwidth(%d, %r, %r) = %r' % (v, w, signed, cimpl, v, w, signed, impl),
+                                    dict(crep, infer=impl))
                     if cimpl != cmodel:
                         F.model_fail('const:model', size, 'Const(%d, %r, %r) -> %r, const_model = %r'
                                      % (v, w, signed, cimpl, cmodel), crep)
@@ -274,7 +334,8 @@ def check_int(ctx, F):
 
 def check_bool(ctx, F):
     ws = [None, -1, 0, 1, 2, 8]
-    (m_inf, m_const), = ctx.coq_eval(['(h_bool %s, h_const_bool %s)' % (ol(ws), ol(ws))], IMPORTS, tag='c16bool')
+    (m_inf, m_const), = model_eval(ctx, F, ['(h_bool %s, h_const_bool %s)' % (ol(ws), ol(ws))], 'c16bool',
+                                    fallback=(ANY, ANY))
     pyrtl.reset_working_block()
     for bi, b in enumerate((False, True)):
         for wi, w in enumerate(ws):
@@ -296,6 +357,9 @@ def check_bool(ctx, F):
                 if cimpl != spec:
                     F.spec_fail('const:bool', (0, 0, 0), 'Const(%r, %r, %r) -> %r, rules say %r'
                                 % (b, w, signed, cimpl, spec), rep)
+                if (w is None or w >= 1) and cimpl != impl:
+                    F.spec_fail('const:differs-from-infer', (0, 0, 0), 'Const(%r, bitwidth=%r, signed=%r) -> %r but '
+                                'infer_val_and_bitwidth gives %r' % (b, w, signed, cimpl, impl), dict(rep, infer=impl))
                 if cimpl != cmodel:
                     F.model_fail('const:model', (0, 0, 0), 'Const(%r,%r,%r) -> %r vs const_model %r'
                                  % (b, w, signed, cimpl, cmodel), rep)
@@ -336,6 +400,27 @@ def verilog_cases(ctx):
                     if rng.random() < 0.1:
                         s = s.upper()
                     out.append((s, (neg, w, n)))
+    # every digit of every radix in leading / middle / trailing position (two- and three-digit bodies; in
+    # particular the hex digits that are also radix letters), either case, optional underscores, both signs
+    for letter in ('b', 'o', 'd', 'h', 'x', ''):
+        base = RADIX[letter]
+        digs = DIGITS[:base]
+        bodies = [a + b for a in digs for b in digs]
+        bodies += [a + m + rng.choice(digs) for a in digs for m in digs] if base <= 10 or ctx.tier != 'quick' \
+            else [a + m + rng.choice(digs) for a in digs for m in digs if rng.random() < 0.5]
+        bodies += [d for d in digs]
+        for body in bodies:
+            n = int(body, base)
+            w = rng.choice([max(1, n.bit_length()), n.bit_length() + 1, 12, 16])
+            neg = rng.random() < 0.3
+            text = body
+            if len(text) > 1 and rng.random() < 0.25:
+                k = rng.randrange(1, len(text))
+                text = text[:k] + '_' + text[k:]
+            s = ('-' if neg else '') + str(w) + "'" + letter + text
+            if rng.random() < 0.3:
+                s = s.upper()
+            out.append((s, (neg, w, n)))
     kmax = 130 if ctx.tier == 'quick' else 260
     for k in list(range(7, kmax + 1)):
         for n in sorted({(1 << (k - 1)) - 1, 1 << (k - 1), (1 << (k - 1)) + 1, (1 << k) - 1, 1 << k}):
@@ -367,7 +452,7 @@ def check_verilog(ctx, F):
         sub = [strings[i] for i in ch]
         exprs.append('(h_str %s [None; Some 0; Some 1; Some 4; Some 7], h_const_str %s [None; Some 1; Some 4; Some 7])'
                      % (sll(sub), sll(sub)))
-    res = ctx.coq_eval(exprs, IMPORTS, tag='c16str', shard=3, jobs=12)
+    res = model_eval(ctx, F, exprs, 'c16str', fallback=(ANY, ANY), shard=3, jobs=12)
     PW = [None, 0, 1, 4, 7]
     CW = [None, 1, 4, 7]
     pyrtl.reset_working_block()
@@ -423,6 +508,12 @@ def check_verilog(ctx, F):
                         pyrtl.reset_working_block()
                     cmodel = tup(m_const[j][pi][si])
                     ctx.case(('const-str', s, passed, signed))
+                    iimpl = tup(call(infer_val_and_bitwidth, s, passed, signed)[0])
+                    if cimpl != iimpl:
+                        F.spec_fail('const:differs-from-infer', (len(s), 0, 0), 'Const(%r, bitwidth=%r, signed=%r) -> %r '
+                                    'but infer_val_and_bitwidth gives %r' % (s, passed, signed, cimpl, iimpl),
+                                    {'call': 'Const(%r, bitwidth=%r, signed=%r)' % (s, passed, signed), 'got': cimpl,
+                                     'infer': iimpl})
                     crep = {'call': 'Const(%r, bitwidth=%r, signed=%r)' % (s, passed, signed), 'got': cimpl,
                             'exception': ccls}
                     if cimpl != cmodel:
@@ -455,7 +546,7 @@ def check_signed_and_twos(ctx, F):
                    {s * ((1 << (k - 1)) + d) for s in (1, -1) for d in (-1, 0, 1)})
         groups.append((b, [k - 1, k, k + 1]))
     exprs = ['(h_vts %s %s, h_twos %s %s)' % (zl(v), zl(w), zl(v), zl(w)) for v, w in groups]
-    res = ctx.coq_eval(exprs, IMPORTS, tag='c16vts', shard=26, jobs=12)
+    res = model_eval(ctx, F, exprs, 'c16vts', fallback=(ANY, Rep(Rep((ANY, ANY)))), shard=26, jobs=12)
     for (vs, ws), (m_vts, m_twos) in zip(groups, res):
         for vi, v in enumerate(vs):
             for wi, w in enumerate(ws):
@@ -641,7 +732,7 @@ def check_formats(ctx, F):
                                     dict(rep, expected=d))
     # model of str()/bin()/hex() and int() directly, on boundaries
     vs = sorted({s * ((1 << k) + dd) for k in range(0, 140, 7) for s in (1, -1) for dd in (-1, 0, 1)} | set(range(-40, 41)))
-    (m,) = ctx.coq_eval(['h_pystr %s' % zl(vs)], IMPORTS, tag='c16pystr')
+    (m,) = model_eval(ctx, F, ['h_pystr %s' % zl(vs)], 'c16pystr', fallback=Rep((ANY, ANY, ANY)))
     for v, (a, b, c) in zip(vs, m):
         ctx.case(('pystr', v))
         got = (str(v), bin(v)[2:], hex(v)[2:])
@@ -721,7 +812,7 @@ def check_enum_sets(ctx, F):
     sets = '[' + '; '.join('[' + '; '.join('e%d' % i for i in o) + ']' for o in orders) + ']'
     expr = '%s map (fun es => ({to_str} %s %s es, {to_val} %s %s es)) %s' % (
         lets, zl(vals), sll(fs), sll(ds), sll(fs), sets)
-    (res,) = eval_fmt(ctx, F, [expr], 'c16enum')
+    (res,) = eval_fmt(ctx, F, [expr], 'c16enum', fallback=Rep((ANY, ANY)))
     for o, (m_str, m_val) in zip(orders, res):
         es = [ENUMS[i] for i in o]
         esn = [e.__qualname__ for e in es]
@@ -1037,7 +1128,7 @@ def check_bitpatterns(ctx, F):
         ch = cases[i:i + 200]
         chunks.append(ch)
         exprs.append('h_b2v [' + '; '.join('(%s, [%s])' % (sl(p), '; '.join(zl(f) for f in fl)) for p, fl in ch) + ']')
-    res = ctx.coq_eval(exprs, IMPORTS, tag='c16b2v', shard=3, jobs=12)
+    res = model_eval(ctx, F, exprs, 'c16b2v', shard=3, jobs=12)
     accepted = {}
     for ch, m in zip(chunks, res):
         for (p, fl), mp in zip(ch, m):
@@ -1076,7 +1167,7 @@ def check_bitpatterns(ctx, F):
         ch = mcases[i:i + 150]
         chunks.append(ch)
         exprs.append('h_match [' + '; '.join('(%s, %s)' % (sl(q), zl(vals)) for _, q, vals in ch) + ']')
-    res = ctx.coq_eval(exprs, IMPORTS, tag='c16match', shard=3, jobs=12)
+    res = model_eval(ctx, F, exprs, 'c16match', fallback=Rep(Rep((ANY, ANY))), shard=3, jobs=12)
     for ch, m in zip(chunks, res):
         for (p, q, vals), mp in zip(ch, m):
             try:
@@ -1093,7 +1184,7 @@ def check_bitpatterns(ctx, F):
                 ctx.count('match:matched', sm)
                 rep = {'call': 'match_bitpattern(w=%d (len %d), %r)' % (v, len(p), q), 'got': [sm, sf]}
                 size = (len(p), v, 0)
-                if (sm, sf) != (1 if mm else 0, list(mf)):
+                if mm is not ANY and (sm, sf) != (1 if mm else 0, list(mf)):
                     F.model_fail('match:model', size, 'match_bitpattern(%d, %r) = %r, model %r' % (v, q, (sm, sf), (mm, mf)), rep)
                 want = spec_match(q, v)
                 if (sm, sf) != want:
